@@ -8,7 +8,7 @@ import re
 from .. import mir, guards, walk
 from ..core import VERIF, REPO
 from ..mir import show, strip_refs
-from .t_tables import called_exact, sig_calls, is_call, outcome_of
+from .t_tables import called_exact, sig_calls, is_call, outcome_of, atom_zero
 
 DECLSCAN = os.path.join(VERIF, "engine", "declscan", "target", "release", "declscan")
 
@@ -192,9 +192,9 @@ def record_reader(body, crate):
         isv0 = None
         for a in p.atoms():
             c = a[1]
-            if c[0] == "bin" and c[1] in ("Eq", "Ne") and guards.rng(c[3]) == (0, 0) and "read_u8" in show(c[2]):
-                tv = guards.truth(a[2])
-                isv0 = tv if c[1] == "Eq" else not tv
+            z = atom_zero(a, "read_u8") if c[0] != "discr" else None
+            if z is not None:
+                isv0 = z
         ctor = [c for c in p.calls() if c[2] in ("AdtDeserializer::new_v0", "AdtDeserializer::new")]
         if isv0 is None or len(ctor) != 1:
             continue
@@ -226,9 +226,9 @@ def enum_reader(body, crate):
         isv0 = None
         for a in p.atoms():
             c = a[1]
-            if c[0] == "bin" and c[1] in ("Eq", "Ne") and guards.rng(c[3]) == (0, 0) and "read_u8" in show(c[2]):
-                tv = guards.truth(a[2])
-                isv0 = tv if c[1] == "Eq" else not tv
+            z = atom_zero(a, "read_u8") if c[0] != "discr" else None
+            if z is not None:
+                isv0 = z
         if isv0 is None or not _all_continue(p):
             continue
         rc = called_exact(p, "AdtDeserializer::read_constructor")
@@ -277,6 +277,21 @@ def metadata_steps(crate, static_name):
                 if v[0] == "agg" and v[2] and v[2].endswith("::Evolution"):
                     st.append((v[3], _str(v)))
         news = called_exact(p, "AdtMetadata::new")
+        if len(news) == 1 and not st:
+            # `vec![step, ..]`: one array of steps stored into the allocation that becomes the vector handed to new()
+            arg = show(news[0][5][0])
+            for s_ in p.stores():
+                v = strip_refs(s_[2])
+                if v[0] == "agg" and v[1] == "array" and v[4] and all(
+                        strip_refs(e)[0] == "agg" and (strip_refs(e)[2] or "").endswith("::Evolution") for e in v[4]):
+                    base = [x for x in mir.walk_expr(s_[1]) if x[0] == "call"]
+                    if base and show(base[0]) in arg:
+                        st = [(strip_refs(e)[3], _str(strip_refs(e))) for e in v[4]]
+            if not st:
+                v = strip_refs(news[0][5][0])
+                lit = [x for x in mir.walk_expr(v) if x[0] == "agg" and x[1] == "array"]
+                if lit and all(strip_refs(e)[0] == "agg" and (strip_refs(e)[2] or "").endswith("::Evolution") for e in lit[0][4]):
+                    st = [(strip_refs(e)[3], _str(strip_refs(e))) for e in lit[0][4]]
         if len(news) == 1:
             steps = st
     return steps
